@@ -163,7 +163,9 @@ fn cfgs() -> Vec<Cfg> {
 
 fn eqsat_cfgs() -> Vec<Cfg> {
     // run_eqsat has no node limit: the configurations with node_limit == 10_000 and an ordinary hook only
-    cfgs().into_iter().filter(|c| c.node_limit == 10_000 && c.hook < 6).collect()
+    let mut v: Vec<Cfg> = cfgs().into_iter().filter(|c| c.node_limit == 10_000 && c.hook < 6).collect();
+    v.push(Cfg { iter_limit: 5, node_limit: 10_000, time_zero: false, hook: 7 });
+    v
 }
 
 const DELAYED_LIMIT_MS: u64 = 8;
@@ -371,6 +373,18 @@ fn run_eqsat_cfg(start: &T, rules_idx: &[usize], c: Cfg) -> (Vec<Fail>, u64, u64
     let r = catch(|| {
         run_eqsat(&mut eg, rules, c.iter_limit, if c.time_zero { 0 } else { GENEROUS_TIME_LIMIT_S as usize }, move |eg: &mut EGraph<Ar>| {
             cl.set(cl.get() + 1);
+            if hookno == 7 {
+                // the shrinking hook: unions neighbouring classes
+                let mut all: Vec<Id> = eg.ids();
+                all.sort();
+                for w in all.windows(2) {
+                    if eg.is_alive(w[0]) && eg.is_alive(w[1]) {
+                        let (a, b) = (eg.mk_identity_applied_id(w[0]), eg.mk_identity_applied_id(w[1]));
+                        eg.union(&a, &b);
+                    }
+                }
+                return Ok(());
+            }
             if hookno >= 4 {
                 eg.add(Ar::Num(1000 + cl.get() as u32));
             }
